@@ -706,8 +706,14 @@ func (api *API) ClusterMessage(ctx context.Context, reqBody io.Reader) error {
 		return errors.Wrap(err, "reading body")
 	}
 
+	if len(body) == 0 {
+		return errors.New("empty cluster message")
+	}
 	typ := body[0]
 	msg := getMessage(typ)
+	if msg == nil {
+		return fmt.Errorf("unknown cluster message type %d", typ)
+	}
 	err = api.server.serializer.Unmarshal(body[1:], msg)
 	if err != nil {
 		return errors.Wrap(err, "deserializing cluster message")
